@@ -244,6 +244,9 @@ class kLeastAbsErrors(pathmodel.AbstractPathModelDAG):
         # If we get subpath constraints, and the coverage fraction is 1
         # then we know their edges must appear in the solution, so we add their edges to the trusted edges for safety
         self.optimization_options["trusted_edges_for_safety"] = set(self.trusted_edges_for_safety or [])
+        # the constraints are used below (their edges become trusted): validate them first
+        if self.subpath_constraints is not None:
+            self._check_valid_subpath_constraints()
         if self.subpath_constraints is not None:
             if (self.subpath_constraints_coverage == 1.0 and self.subpath_constraints_coverage_length is None) \
                 or self.subpath_constraints_coverage_length == 1:
